@@ -58,6 +58,59 @@ type resolver struct {
 	unresolvedUses []*usesUnresolved
 	loadedModules  map[string]*Module
 	trace          bool
+
+	// definitions left out because their if-feature is off, by parent. refines and
+	// augments aimed at them are left out too instead of failing the load
+	disabled map[Meta]map[string]bool
+}
+
+func (r *resolver) noteDisabled(parent Meta, ident string) {
+	if r.disabled == nil {
+		r.disabled = make(map[Meta]map[string]bool)
+	}
+	if r.disabled[parent] == nil {
+		r.disabled[parent] = make(map[string]bool)
+	}
+	r.disabled[parent][ident] = true
+}
+
+func (r *resolver) noteDisabledDef(parent Meta, child Definition, depth int) {
+	u, isUses := child.(*Uses)
+	if !isUses {
+		r.noteDisabled(parent, child.Ident())
+		return
+	}
+	// everything the grouping would have brought in, guarding against recursive groupings
+	if g, err := r.findGrouping(u); err == nil && depth < 32 {
+		for _, d := range g.DataDefinitions() {
+			r.noteDisabledDef(parent, d, depth+1)
+		}
+	}
+}
+
+// targetDisabled is true when the schema path leads through a definition that was
+// left out because its if-feature is off
+func (r *resolver) targetDisabled(p Meta, path string) bool {
+	if strings.HasPrefix(path, "/") {
+		p = RootModule(p)
+		path = path[1:]
+	}
+	for _, seg := range strings.Split(path, "/") {
+		if child := Find(p, seg); child != nil {
+			p = child
+			continue
+		}
+		if colon := strings.IndexRune(seg, ':'); colon > 0 {
+			if _, isModule := p.(*Module); isModule {
+				if mod, err := RootModule(p).ModuleByPrefix(seg[:colon]); err == nil {
+					p = mod
+				}
+			}
+			seg = seg[colon+1:]
+		}
+		return r.disabled[p][seg]
+	}
+	return false
 }
 
 func (r *resolver) module(y *Module) error {
@@ -168,6 +221,7 @@ func (r *resolver) enter(d Definition) ([]Definition, error) {
 				return nil, err
 			} else if !on {
 				delete(hasCases.cases, cident)
+				r.noteDisabled(hasCases, cident)
 				continue
 			}
 			if _, err := r.addDefinitions(c, c.popDataDefinitions()); err != nil {
@@ -186,6 +240,7 @@ func (r *resolver) enter(d Definition) ([]Definition, error) {
 				return nil, err
 			} else if !on {
 				delete(hasActions.Actions(), ident)
+				r.noteDisabled(d, ident)
 				continue
 			}
 			if _, err := r.enter(a); err != nil {
@@ -200,6 +255,7 @@ func (r *resolver) enter(d Definition) ([]Definition, error) {
 				return nil, err
 			} else if !on {
 				delete(hasNotification.Notifications(), ident)
+				r.noteDisabled(d, ident)
 				continue
 			}
 			if _, err := r.enter(n); err != nil {
@@ -516,6 +572,9 @@ func (r *resolver) addDefinitions(x HasDataDefinitions, defs []Definition) ([]De
 func (r *resolver) addDataDefinition(parent HasDataDefinitions, child Definition) ([]Definition, error) {
 	if hasIf, valid := child.(HasIfFeatures); valid {
 		if on, err := checkFeature(hasIf); err != nil || !on {
+			if err == nil {
+				r.noteDisabledDef(parent, child, 0)
+			}
 			return nil, err
 		}
 	}
@@ -775,6 +834,9 @@ func (r *resolver) applyRefinements(u *Uses, parent Definition) error {
 		}
 		target := Find(parent.(HasDataDefinitions), refine.Ident())
 		if target == nil {
+			if r.targetDisabled(parent, refine.Ident()) {
+				continue
+			}
 			return fmt.Errorf("%s:could not find target for refine %s", SchemaPath(u), refine.Ident())
 		}
 		if err := r.refine(target, refine); err != nil {
@@ -830,7 +892,15 @@ func (r *resolver) expandAugment(y *Augment, parent Meta) error {
 	//   output, or notification node."
 	target := Find(parent.(HasDataDefinitions), y.ident)
 	if target == nil {
+		if r.targetDisabled(parent, y.ident) {
+			return nil
+		}
 		return fmt.Errorf("%s - augment target is not found %s", SchemaPath(y), y.ident)
+	}
+
+	// what this augment would have added had the feature been on
+	for ident := range r.disabled[y] {
+		r.noteDisabled(target, ident)
 	}
 
 	targetChoice, targetIsChoice := target.(*Choice)
